@@ -45,6 +45,7 @@ type loopInfo struct {
 	spec    *spec.LoopSpec
 	allocStores map[string][]*ssa.Alloc // heap -> struct-typed local allocs whose field is stored (keyed havoc)
 	calls   []*ssa.CallCommon             // contract calls whose assigns are resolved at havoc time
+	ptrStores map[string][]ssa.Value      // heap -> pointer values (loads of cells) whose field is stored
 }
 
 type Exec struct {
@@ -201,7 +202,7 @@ func (x *Exec) findLoops() {
 			if succ.Dominates(b) {
 				li := x.loops[succ]
 				if li == nil {
-					li = &loopInfo{header: succ, body: map[*ssa.BasicBlock]bool{succ: true}, cells: map[*ssa.Alloc]bool{}, heaps: map[string]bool{}, allocStores: map[string][]*ssa.Alloc{}}
+					li = &loopInfo{header: succ, body: map[*ssa.BasicBlock]bool{succ: true}, cells: map[*ssa.Alloc]bool{}, heaps: map[string]bool{}, allocStores: map[string][]*ssa.Alloc{}, ptrStores: map[string][]ssa.Value{}}
 					x.loops[succ] = li
 				}
 				// natural loop: all nodes that can reach b without passing header
@@ -272,6 +273,13 @@ func (x *Exec) rootOf(v ssa.Value, li *loopInfo) {
 			name, _, _ := x.E.fieldHeap(st, v.Field)
 			li.allocStores[name] = append(li.allocStores[name], al)
 			return
+		}
+		if ld, isLoad := v.X.(*ssa.UnOp); isLoad && !isStruct(ft) && li.ptrStores != nil {
+			if _, fromCell := ld.X.(*ssa.Alloc); fromCell {
+				name, _, _ := x.E.fieldHeap(st, v.Field)
+				li.ptrStores[name] = append(li.ptrStores[name], ld)
+				return
+			}
 		}
 		if isStruct(ft) {
 			x.structHeaps(ft, li)
@@ -1257,6 +1265,19 @@ func (x *Exec) havocLoop(s *State, li *loopInfo) {
 			// allocs created inside the loop are fresh each iteration: nothing to havoc
 		}
 	}
+	for h, ptrs := range li.ptrStores {
+		for _, pv := range ptrs {
+			// p.f = ... where p is a local that the loop does not reassign: only that object's field changes
+			cell, _ := pv.(*ssa.UnOp).X.(*ssa.Alloc)
+			cv, ok := s.cells[cell]
+			tv, isTerm := cv.(TermVal)
+			if cell == nil || !ok || !isTerm || li.cells[cell] {
+				whole[h] = true
+				continue
+			}
+			keyed[h] = append(keyed[h], tv.T)
+		}
+	}
 	for _, call := range li.calls {
 		c, _ := x.calleeContract(call)
 		ts, all := x.contractHeaps(c, call, s, li)
@@ -1395,6 +1416,23 @@ func (x *Exec) finish(s *State, ret *ssa.Return, rs []Val) {
 		}
 	}
 	x.curInstr = ret
+	// ghost assignments
+	for _, gs := range x.c.GhostSets {
+		ts, all := x.resolveTargets(env, gs.Target)
+		if all || len(ts) != 1 || !(strings.HasPrefix(ts[0].Heap, "GF$") || strings.HasPrefix(ts[0].Heap, "GV$")) {
+			x.unsupported("ghostset target must be one ghost field or ghost variable")
+			continue
+		}
+		v := x.eval(env, gs.Value)
+		t := ts[0]
+		if t.Key == nil {
+			x.Heap(s, t.Heap)
+			s.heap[t.Heap] = v.T
+		} else {
+			s.heap[t.Heap] = smt.Store(x.Heap(s, t.Heap), t.Key, v.T)
+		}
+		x.wrote[t.Heap] = true
+	}
 	// explicit lemma instantiations (the lemmas are proved separately)
 	for _, u := range x.c.Uses {
 		call, ok := u.E.(*spec.Call)
